@@ -29,7 +29,48 @@ UNION, FIND, CONN, COUNT, SIZES, COMPS = range(6)
 # generators
 # ---------------------------------------------------------------------------
 
+def gen_uf_deep(rng, big):
+    """Binomial-tree histories: blocks are merged pairwise through their current roots (so no path is
+    compressed on the way and trees of depth log n arise), then the deep leaves are read."""
+    k = rng.choice([3, 3, 4, 5 if big else 4])
+    n = (1 << k) + rng.choice([0, 0, 1, 3])
+    perm = list(range(n))
+    rng.shuffle(perm)
+    blocks = [[perm[i]] for i in range(1 << k)]
+    roots = {b[0]: b[0] for b in blocks}  # our own bookkeeping of the likely root (first element merged into)
+    ops = []
+    while len(blocks) > 1:
+        nxt = []
+        for i in range(0, len(blocks) - 1, 2):
+            a, b = blocks[i], blocks[i + 1]
+            x, y = a[0], b[0]
+            if rng.random() < 0.3:
+                x, y = y, x
+            ops.append((UNION, x, y))
+            nxt.append(a + b if x == a[0] else b + a)
+            if rng.random() < 0.15:
+                ops.append((COUNT, 0, 0))
+        if len(blocks) % 2:
+            nxt.append(blocks[-1])
+        blocks = nxt
+    for _ in range(rng.randint(3, 25)):
+        r = rng.random()
+        if r < 0.4:
+            ops.append((CONN, rng.randrange(n), rng.randrange(n)))
+        elif r < 0.6:
+            ops.append((FIND, rng.randrange(n), 0))
+        elif r < 0.8:
+            ops.append((UNION, rng.randrange(n), rng.randrange(n)))
+        elif r < 0.9:
+            ops.append((SIZES, 0, 0))
+        else:
+            ops.append((COMPS, 0, 0))
+    return {"kind": "uf", "n": n, "ops": [list(o) for o in ops]}
+
+
 def gen_uf(rng, big):
+    if rng.random() < 0.3:
+        return gen_uf_deep(rng, big)
     n = rng.choice([1, 2, 3, 4, 5, 6, 8, 12, 20, 40 if big else 30])
     m = rng.randint(1, 200 if big else 80)
     ops = []
